@@ -569,11 +569,39 @@ package leveldb
 // Opening a DB: after the manifest has been read, the session continues from the manifest's last word - the next
 // file number (no number already handed out is handed out again), the journal number and the sequence number that
 // journal replay starts from.
+// ... and its last COMPLETE word: a manifest record that did not decode completely (a record torn by a crash between
+// the two storage writes of a record that straddles a 32 KiB block, whose first chunk carries a valid checksum) is
+// skipped as a whole - none of the numbers it had already set (journal, previous journal, next file, sequence,
+// comparer) may stay in the record the recovered state is taken from (F26: the torn record of a memdb flush named the
+// NEW journal; the frozen journal was then not replayed and was deleted, with every write in it).
+//@ ghost var gRecJ int64
+//@ ghost var gRecP int64
+//@ ghost var gRecN int64
+//@ ghost var gRecS uint64
+//@ ghost var gRecH int
 //@ func (*session).recover
 //@   props C04 C01
 //@   mode bv
 //@   safety off
+//@   at before call (*sessionRecord).decode#1
+//@     ghost gRecJ = rec.journalNum
+//@     ghost gRecP = rec.prevJournalNum
+//@     ghost gRecN = rec.nextFileNum
+//@     ghost gRecS = rec.seqNum
+//@     ghost gRecH = rec.hasRec
+//@   at before stmt rec.resetCompPtrs()
+//@     assert [C01,C04:a-record-that-did-not-decode-completely-leaves-no-number-behind] err != nil ==> (rec.journalNum == gRecJ && rec.prevJournalNum == gRecP && rec.nextFileNum == gRecN && rec.seqNum == gRecS && rec.hasRec == gRecH)
 //@   guarantees [C01,C04:recovered-state-is-the-manifests-last-word] err == nil ==> (s.stNextFileNum == rec.nextFileNum && s.stJournalNum == rec.journalNum && s.stSeqNum == rec.seqNum)
+
+// C04 (a crash during the very first Open): a storage that holds no entry point is taken for a damaged DB only when
+// it holds files that can carry data - journals or tables. A manifest that never became current (the first Open died
+// before the pointer was set) is not such a file: the DB is created again instead of being refused for ever (F28).
+//@ func (*session).recover$1
+//@   props C04
+//@   mode bv
+//@   safety off
+//@   at before call storage.Storage.List#1
+//@     assert [C04:only-journals-and-tables-make-a-missing-entry-point-a-corruption] arg0 == storage.TypeJournal | storage.TypeTable
 
 // Applying a batch to the write buffer: record i is entered under the batch's first sequence number plus i, with its
 // own kind, key and value (the same numbering the journal replay uses, below).
@@ -589,9 +617,21 @@ package leveldb
 // (the one dropFrozenMem removes once the flush is committed), the sequence number reached is remembered as the
 // frozen buffer's (it goes into the flush record: every record of the frozen journal is at or below it), and a fresh
 // journal file takes over. dropFrozenMem removes exactly the frozen journal and forgets the frozen buffer.
+// ... The journal writer the records go to (db.journal, re-pointed by Reset) and the file handle that is synced
+// (db.journalWriter) are switched together: no return leaves the records going to the new file while syncs still go
+// to the old one (F29: a failed Close of the old journal did; later writes were acknowledged as synced and were not).
+//@ ghost var gHalfSwitched bool
 //@ func (*DB).newMem
-//@   props C04 C01
+//@   props C04 C01 C08
 //@   safety off
+//@   at entry
+//@     ghost gHalfSwitched = false
+//@   at call (*Writer).Reset#1
+//@     ghost gHalfSwitched = true
+//@   at after stmt db.journalWriter = w
+//@     ghost gHalfSwitched = false
+//@   at return
+//@     assert [C01,C04,C08:records-and-syncs-are-switched-to-the-new-journal-together] !gHalfSwitched
 //@   ensures [C01,C04:the-old-buffer-is-frozen-with-the-sequence-reached] err == nil ==> (db.frozenMem == old(db.mem) && db.frozenSeq == db.seq && db.mem == mem && mem != nil)
 //@   ensures [C01,C04:the-old-journal-is-the-frozen-journal] (err == nil && old(db.journal) != nil) ==> (db.frozenJournalFd.Num == old(db.journalFd.Num) && db.frozenJournalFd.Type == old(db.journalFd.Type))
 //@   ensures [C01,C04:a-frozen-buffer-is-never-overwritten] old(db.frozenMem) != nil ==> (err != nil && db.frozenMem == old(db.frozenMem) && db.mem == old(db.mem))
@@ -1678,8 +1718,13 @@ package leveldb
 //@   trusted
 //@   modifies s.manifest, s.manifestFd, s.manifestWriter, s.stCompPtrs, s.stJournalNum, s.stNextFileNum, s.stPrevJournalNum, s.stSeqNum
 //@ func recoverTable
-//@   props C19
+//@   props C19 C04
 //@   safety off
+// (C04 / C19: Recover makes no manifest current before the one that records the recovered tables: a crash after an
+// empty manifest had become current left a DB that opens without error and whose janitor then removes every table;
+// F27)
+//@   at before call (*session).commit#1
+//@     assert [C04,C19:no-manifest-becomes-current-before-the-recovered-tables-are-recorded] calls("storage.Storage.SetMeta") == old(calls("storage.Storage.SetMeta"))
 // (the scan of a damaged table must go on behind a damaged block: the reader's strictness is masked out of the
 // options - and the masked value must not be zero, which the options read as "default", reader strictness included;
 // F16)
@@ -1855,6 +1900,17 @@ package leveldb
 //@     assert [C02,C03,C11:every-source-is-restricted-to-the-range] arg0 == slice
 //@   at before call (*tOps).newIterator#1
 //@     assert [C02,C03,C11:every-source-is-restricted-to-the-range] arg1 == slice
+// C18: a DB that was closed between the caller's closed-check and this point hands out no write buffer (getMems
+// answers nil, nil): the iterator then reports the closed error instead of dereferencing the missing buffer (F30).
+//@ func (*version).getIterators
+//@   props C18
+//@   trusted
+//@ func (*DB).newRawIterator
+//@   props C18
+//@   safety off
+//@   at before call (*DB).NewIterator#2
+//@     assert [C18:no-iterator-is-built-over-the-missing-write-buffer-of-a-closed-db] em != nil
+
 //@ func (*DB).newIterator
 //@   props C02 C11 C03
 //@   safety off
@@ -1870,7 +1926,7 @@ package leveldb
 //@     assert [C02,C03,C11:every-table-iterator-is-restricted-to-the-range] arg2 == slice
 // (what the source iterators do with the range is C13 / C14 material: left abstract here)
 //@ func (*tOps).newIterator
-//@   props C02 C11 C01 C03
+//@   props C02 C11 C01 C03 C18
 //@   trusted
 // (C02: a range whose Start lies behind its Limit is an empty range, for a sorted level as for every other source: the
 // tables selected are tf[start:limit] with start <= limit; F24: it used to panic with "slice bounds out of range"
